@@ -366,12 +366,15 @@ def random_reference(rng, near_lo=-5.0):
         # almost, but not exactly, aligned frame neighbours: still a determined frame (generic class);
         # sin(theta) log-uniform in [1e-5, 1e-3]
         nb, anchors, triple = _graph_info(n, bonds)
-        a = anchors[int(rng.integers(0, len(anchors)))]
+        branched = [x for x in anchors if len(nb[x]) >= 3]
+        # a branched anchor (three or more bonds) more often than not: its frame must still come from its two
+        # lowest-numbered neighbours, however nearly aligned they are; angles from a fraction of an arc second to ~5 degrees
+        a = branched[int(rng.integers(0, len(branched)))] if branched and rng.random() < 0.6 else anchors[int(rng.integers(0, len(anchors)))]
         _, n1, n2 = triple[a]
         d = _unit(rng)
         perp = np.cross(d, _unit(rng))
         perp /= np.linalg.norm(perp)
-        eps = 10 ** rng.uniform(near_lo, -3)
+        eps = 10 ** rng.uniform(near_lo, -3 if rng.random() < 0.5 else -1.1)
         pos[n2] = pos[a] + d * rng.uniform(0.1, 0.3)
         l1 = rng.uniform(0.1, 0.3) * rng.choice([-1, 1])
         pos[n1] = pos[a] + l1 * (d + eps * perp)
